@@ -90,8 +90,8 @@ func C15_SetStep() {
 	checkSet(s, m, "constructed")
 	switch rt.Choose("op", 6) {
 	case 5: // two unions on the same receiver
-		t1, m1 := arbitrarySet("t", rt.Param("KU", 2))
-		t2, m2 := arbitrarySet("u", rt.Param("KU", 2))
+		t1, m1 := arbitrarySet("t", rt.Param("KU2", 2))
+		t2, m2 := arbitrarySet("u", rt.Param("KU2", 2))
 		r1 := s.Union(t1)
 		r2 := s.Union(t2)
 		checkSet(r1, specUnion(m, m1), "union2-first-result")
@@ -112,7 +112,7 @@ func C15_SetStep() {
 		checkSet(r2, specInsert(m, b), "insert2-second-result")
 		checkSet(s, m, "insert2-receiver-unchanged")
 	case 2: // Union with an independent arbitrary set
-		t, mt := arbitrarySet("t", K)
+		t, mt := arbitrarySet("t", rt.Param("KU", 2))
 		r := s.Union(t)
 		checkSet(r, specUnion(m, mt), "union-result")
 		checkSet(s, m, "union-receiver-unchanged")
@@ -310,7 +310,7 @@ func C15_History() {
 	var sets []setVal
 	var maps []mapVal
 	// seed values
-	s0, m0 := arbitrarySet("s0", 3)
+	s0, m0 := arbitrarySet("s0", rt.Param("S0", 3))
 	sets = append(sets, setVal{s0, m0})
 	maps = append(maps, mapVal{data.NewIntMap(nil), nil})
 	for st := 0; st < steps; st++ {
